@@ -248,6 +248,10 @@ var (
 	val16  = []byte("0123456789abcdef")
 	val15  = []byte("0123456789abcde")
 	valBig = bytes.Repeat([]byte("e"), refMaxEnvelope+1)
+	// leading/trailing blanks, upper case, a 2-byte rune, a byte that is not UTF-8, an inner NUL
+	valNasty = []byte(" Org\tÉ\xff\x00x \n")
+	// 16 bytes starting and ending with NUL, with 0xFF/0x80 inside
+	valBin16 = []byte{0, 0xFF, 0x80, 0x7F, 0, 0, 1, 2, 0xC3, 0x28, 0x20, 0x0A, 0xFE, 0xFF, 0x00, 0x00}
 )
 
 func buildAlphabet() []tok {
@@ -311,6 +315,13 @@ func buildAlphabet() []tok {
 	add("12:b:max+1", encBytesField(12, valBig), false, false)
 	add("9:b:max+1", encBytesField(9, valBig), false, false)
 	add("5:b:max+1", encBytesField(5, valBig), false, false)
+	// rev9: payloads that a careless extractor could normalise (trim, case-fold, UTF-8 repair, NUL-terminate):
+	// "extracted exactly" means byte for byte. Full alphabet only (every context of depth <=2 / <=3).
+	add("6:v:3", append(encTag(6, wtVarint), 3), false, false) // a protocol beyond SESSION_PROTOCOL_BEDROCK
+	add("7:b:nasty", encBytesField(7, valNasty), false, false)
+	add("8:b:nasty", encBytesField(8, valNasty), false, false)
+	add("9:b:bin16", encBytesField(9, valBin16), false, false)
+	add("12:b:bin16", encBytesField(12, valBin16), false, false)
 	// non-minimal (two byte) tag encodings of principal fields: same field for a wire parser
 	add("12:b:x/longtag", append([]byte{byte(12<<3|wtBytes) | 0x80, 0x00, 1}, 'x'), false, true)
 	add("9:b:16/longtag", append([]byte{byte(9<<3|wtBytes) | 0x80, 0x00, 16}, val16...), false, true)
@@ -428,6 +439,13 @@ func (c *checker) run(cs c41case, in []byte) (e expect) {
 			c.vio("rejected-valid/"+stage, cs, in, "no principal field and well-formed, got error: "+err.Error())
 		} else if w != nil {
 			c.vio("principal-from-nothing", cs, in, fmt.Sprintf("no principal field present but got %+v", short(w)))
+		} else if pp, pv := vrt.Catch(func() {
+			// rev9: the caller uses the nil result through its accessors
+			if w.HasEnvelope() || w.IsBedrock() {
+				c.vio("principal-from-nothing/accessors", cs, in, "nil result reports an envelope or the Bedrock protocol")
+			}
+		}); pp {
+			c.vio("panic", cs, in, fmt.Sprintf("accessor on the nil result: %v", pv))
 		}
 	default:
 		if e.env {
@@ -458,6 +476,10 @@ func (c *checker) run(cs c41case, in []byte) (e expect) {
 		}
 		if w.HasEnvelope() != e.env {
 			c.vio("field-mismatch/HasEnvelope", cs, in, fmt.Sprintf("got %v want %v", w.HasEnvelope(), e.env))
+		}
+		// rev9: what setup_client.go and the verifier actually branch on
+		if w.IsBedrock() != (e.w.Protocol == 2) {
+			c.vio("field-mismatch/IsBedrock", cs, in, fmt.Sprintf("IsBedrock()=%v but the reference reads protocol %d (SESSION_PROTOCOL_BEDROCK = 2)", w.IsBedrock(), e.w.Protocol))
 		}
 		// The nonce is only meaningful (and only representable: [16]byte) next to an envelope.
 		if e.env && w.ConnectSessionNonce != e.w.ConnectSessionNonce {
@@ -547,6 +569,16 @@ func TestVerif(t *testing.T) {
 		if r.Mine(0) {
 			for _, p := range paths {
 				c.run(c41case{Path: p}, nil)
+			}
+			// rev9: no session at all (a proposal without one)
+			r.Eval(1)
+			r.Class("nil-session")
+			if p, pv := vrt.Catch(func() {
+				if w, err := ExtractSessionPrincipalWire(nil); w != nil || err != nil {
+					r.Violation("nil-session/not-none", fmt.Sprintf("ExtractSessionPrincipalWire(nil) = %v, %v; want nil, nil", w, err), nil)
+				}
+			}); p {
+				r.Violation("nil-session/panic", fmt.Sprint(pv), nil)
 			}
 		}
 		item := 0
